@@ -476,9 +476,8 @@ func (sc *Scope) trIndex(x EIndex) (Term, types.Type) {
 	case *types.Map:
 		k, _ := sc.Tr(x.I)
 		dn, vn, ds, vs := env.mapHeaps(t)
-		dom := Select(Select(sc.heap(dn, ds), a), k)
-		val := Select(Select(sc.heap(vn, vs), a), k)
-		return Ite(dom, val, env.Zero(u.Elem())), u.Elem()
+		_, _ = dn, ds
+		return Select(Select(sc.heap(vn, vs), a), k), u.Elem()
 	}
 	// ghost array-valued things: (Array K V) terms
 	if strings.HasPrefix(string(a.Sort), "(Array ") {
@@ -710,7 +709,8 @@ func (sc *Scope) trCall(x ECall) (Term, types.Type) {
 		if !ok {
 			sfail("live() needs a pointer")
 		}
-		return And(Not(Eq(a, IntLit(0))), Eq(RType(a), IntLit(int64(sc.vc.tagOf(pt.Elem())))), Le(Base(a), sc.heap("$top", SInt))), tBool
+		hn, hs := env.aliveHeap(pt.Elem())
+		return And(Not(Eq(a, IntLit(0))), Select(sc.heap(hn, hs), a)), tBool
 	case "ite":
 		c, _ := sc.Tr(x.Args[0])
 		a, ta := sc.Tr(x.Args[1])
@@ -930,6 +930,37 @@ func (vc *VC) defineInfo(d *Define) *defInfo {
 		}
 	} else {
 		vc.trustedUsed["uninterpreted "+d.Name] = true
+	}
+	// axioms (assumed) and proved lemmas that mention this spec function become available
+	for _, ax := range vc.p.cs.Axioms {
+		if vc.axiomsDone[ax.Name] {
+			continue
+		}
+		uses := false
+		walkCalls(ax.E, func(n string) {
+			if n == d.Name {
+				uses = true
+			}
+		})
+		if !uses {
+			continue
+		}
+		if vc.lemmaName == "lemma."+ax.Name {
+			continue // a lemma is not available in its own proof
+		}
+		if vc.axiomsDone == nil {
+			vc.axiomsDone = map[string]bool{}
+		}
+		vc.axiomsDone[ax.Name] = true
+		asc := &Scope{vc: vc, pkg: vc.p.typesPkg(ax.PkgPath), vars: map[string]scopeVar{}, st: &State{heaps: map[string]Term{}, locals: map[cellKey]Term{}, gen: -2, top: IntLit(0), pc: True}}
+		asc.old = asc.st
+		t, _ := asc.Tr(ax.E)
+		vc.env.Axiom(t.S)
+		if ax.Lemma {
+			vc.lemmasUsed[ax.Name] = true
+		} else {
+			vc.trustedUsed["axiom "+ax.Name+": "+ax.Src] = true
+		}
 	}
 	return di
 }
